@@ -36,6 +36,7 @@ CORPUS = [
     '10 FOR i = 1 TO 2 : FOR j = 1 TO 2 : PUNCH i*10+j : NEXT : NEXT\n20 FOR i = 1 TO 2 : FOR j = 1 TO 2 : PUNCH i*10+j : NEXT i\n30 PUNCH i, j\n40 SAVE i',
     '10 GOSUB 100 : PUNCH 2\n20 SAVE 3 : END\n100 PUNCH 1 : GOSUB 200 : RETURN\n200 PUNCH 1.5 : RETURN',
     '10 STOP',
+    '10 PUNCH LEN(NO_NEWLINE$) + 1\n20 a$ = NO_NEWLINE$ : PUNCH 1, 2\n30 PRINT NO_NEWLINE$, 5 : PRINT 6\n40 SAVE 1',   # 20e99f4a
     '10 PUNCH STR_F$(3.14159, 10, 3), STR_F$(2.5, -10, 0) + "|", STR_E$(-12345.678, 12, 4), STR_E$(0, 0, 0), STR_F$(0.5, 0, -1), STR_F$(1e300, 5, 2), STR_F$(1/3, 300, 20)\n20 SAVE LEN(STR_F$(1e300, 5, 2))',
     '10 PUNCH 0x10, 0x1A + 1, 0x.8, 0x1.8p3, 0x, 0xg, 0x1p, 0XfF, 0x1p-2\n20 SAVE 0x10',
     '10 DIM g(0, 4)\n20 PUNCH g(1)',
@@ -70,7 +71,6 @@ GOLDEN = [
     ('10 DIM a(3), b$(2) : a(1) = 5 : a(3) = 7 : b$(2) = "x" : PUNCH a(0), a(1), a(3), b$(2), c(10)\n20 PUT(2.5, 1, 2) : PUT$("s", 3) : PUNCH GET(1, 2), GET(2, 1), GET$(3)',
      [0, 5, 7, "x", 0, 2.5, 0, "s"]),
 ]
-SKIPPED_NUM = '10 PUNCH LEN(NO_NEWLINE$) + 1\n20 SAVE 1'
 PEEKPOKE = ['10 PUNCH PEEK(8)', '10 POKE 8, 1']
 
 
@@ -408,11 +408,6 @@ def run(ctx):
         if rs["p"]["status"].startswith("sig"):
             ctx.finding("basic-peek-poke", f"BASIC PEEK/POKE dereference an arbitrary address: {text!r} ends with {rs['p']['status']}",
                         {"program": text, "hosts": ["punch"]})
-    # ---- a numeric PUNCH item skipped after NO_NEWLINE$: cmdpunch frees the union as if it held a string
-    pr, ms_, rs_ = check_program(ctx, exe, SKIPPED_NUM)
-    if pr:
-        ctx.finding("basic-skipped-numeric-punch", "numeric PUNCH item skipped after NO_NEWLINE$: " + pr[0],
-                    {"program": SKIPPED_NUM, "hosts": HOSTS})
     # ---- documented values on the real engine (and on the model)
     gm = run_model(ctx, [(i, 0, t) for i, (t, _) in enumerate(GOLDEN)])
     gr = run_real(ctx, exe, [(i, "punch", t) for i, (t, _) in enumerate(GOLDEN)])
@@ -435,7 +430,8 @@ def run(ctx):
     HIST = [('10 PUT(5, 1) : PUT$("s", 2) : x = 3 : DIM q(4) : q(2) = 8 : PUNCH x, GET(1), q(2)\n20 DATA 7, 8\n30 READ d : PUNCH d',
              '10 PUNCH x, GET(1), GET$(2), q(2), 9\n20 READ e : PUNCH e\n30 DATA 6'),
             ('10 FOR i = 1 TO 3 : GOSUB 100 : NEXT i\n20 PUT(i, 7) : END\n100 PUNCH i : RETURN', '10 PUNCH GET(7), i\n20 NEXT i'),
-            ('10 a$ = NO_NEWLINE$ : b$ = EOL_NOTAB$ : PUNCH "skipped", 1', '10 PUNCH 2, 3'),
+            ('10 a$ = NO_NEWLINE$ : b$ = EOL_NOTAB$ : PUNCH 1, 2', '10 PUNCH 2, 3'),
+            ('10 PUNCH 1 : c$ = NO_NEWLINE$', '10 PUNCH 2.5, 3'),
             ('10 b$ = EOL_NOTAB$ : PUNCH 1 : c$ = NO_NEWLINE$', '10 PUNCH "skipped too", 3')]
     hm = run_model_hist(ctx, [(i, a, b) for i, (a, b) in enumerate(HIST)])
     hr = run_real(ctx, exe, [(i, "hist", a + "\n@@\n" + b) for i, (a, b) in enumerate(HIST)])
@@ -619,12 +615,6 @@ def replay(ctx, data):
         print("replay result:", pr or "agree")
         if pr:
             ctx.violation(pr, dict(data, problems=[pr]))
-        return
-    if text == SKIPPED_NUM:
-        pr, _, _ = check_program(ctx, exe, text)
-        print("replay result:", pr or "agree")
-        if pr:
-            ctx.finding("basic-skipped-numeric-punch", pr[0], {"program": text, "hosts": HOSTS})
         return
     if any(text == t for t in PEEKPOKE):
         rs = run_real(ctx, exe, [("p", "punch", text)])
